@@ -21,7 +21,7 @@ func main() {
 		seed, _ = strconv.ParseInt(os.Args[4], 10, 64)
 	}
 	os.MkdirAll(dir, 0o755)
-	os.WriteFile(filepath.Join(dir, "go.mod"), []byte("module progs\n\ngo 1.21\n"), 0o644)
+	os.WriteFile(filepath.Join(dir, "go.mod"), []byte("module progs\n\ngo 1.25\n"), 0o644)
 	for i := 0; i < n; i++ {
 		r := core.Rand(seed, fmt.Sprintf("prog%d", i))
 		var src string
